@@ -59,6 +59,13 @@ pub fn strategy() -> BoxedStrategy<C17Case> {
         60 => crate::iter::strategy(false).prop_map(|mut c| {
             c.exf = 2;
             c.plain_first = c.polls % 2 == 0;
+            // half of them with a second consumer draining handed-over batches at the same time
+            // (two batches of one instance on two threads): every reported origin must still be
+            // the one of its own delivery
+            if c.schedule.len() % 2 == 0 {
+                c.handoff = true;
+                c.consumer = if c.polls % 2 == 0 { 0 } else { 2 };
+            }
             C17Case::Iter(c)
         }),
         // rare: each costs ~0.1 s
